@@ -176,13 +176,21 @@ def run(pid, tier, seed, res, only=None):
                 outs = sorted((set(outs) | {i_}) - {f_}) or [i_]
         single_out = len(outs) == 1 and rng.random() < 0.5
         args = kvalue.gen_args(rng, prog)
-        base = dict(engine="kcompose", prog=prog, ins=ins, outs=outs, args=[enc(a, Keys()) for a in args])
+        # a defaulted PARAMETER of the DAG may be made an input of the composed DAG too (its stored default is then
+        # replaced by the supplied value)
+        prr = random.Random(rng.getrandbits(30))
+        if only is not None and "pins" in only[pi]:
+            pins = list(only[pi]["pins"])
+        else:
+            defaulted = [j for j, p_ in enumerate(prog["params"]) if p_["default"] is not None]
+            pins = [prr.choice(defaulted)] if defaulted and prr.random() < 0.3 else []
+        base = dict(engine="kcompose", prog=prog, ins=ins, outs=outs, pins=pins, args=[enc(a, Keys()) for a in args])
         res.evaluations += 1
         # original before
         ctl0 = tz.Ctl(free_run=True)
         before = tz.run_controlled(lambda: d(*args), ctl0)
         table_before = sorted((k, [(u.id, tuple(u.key)) for u in x.args], sorted((kk, u.id, tuple(u.key)) for kk, u in x.kwargs.items()), None if x.active is None else (x.active.id, tuple(x.active.key))) for k, x in d.exec_nodes.items())
-        in_ids = [sids[i] for i in ins]
+        in_ids = [sids[i] for i in ins] + [d.input_uxns[j].id for j in pins]
         out_ids = [sids[i] for i in outs]
         try:
             cd = d.compose("cmp", in_ids, out_ids[0] if single_out else out_ids)
@@ -216,7 +224,7 @@ def run(pid, tier, seed, res, only=None):
         except BaseException as e:  # noqa: BLE001
             res.hit(pid, "divergence", "tables of the composed DAG not readable: %s: %s" % (type(e).__name__, e), dict(base, kind="table"))
         # ---- run the composed DAG on supplied values
-        vals = [value_for(rng, prog, i) for i in ins]
+        vals = [value_for(rng, prog, i) for i in ins] + [Const(95 + j, j % 2 == 0) for j in pins]
         ctl = tz.Ctl(free_run=True)
         st = tz.run_controlled(lambda: cd(*vals), ctl)
         # independent reference: the plain body with the input statements overridden
@@ -226,7 +234,11 @@ def run(pid, tier, seed, res, only=None):
         # the composed DAG takes constants and DEFAULTS from the original; required parameters are not
         # available to it (compose refuses when the outputs need one), so the reference gets placeholders
         nreq = sum(1 for p in prog["params"] if p["default"] is None)
-        ref = outcome(lambda: ref_f(*[Const(99, False) for _ in range(nreq)]))
+        ref_args = [Const(99, False) for _ in range(nreq)]
+        if pins:
+            for j in range(nreq, max(pins) + 1):
+                ref_args.append(Const(95 + j, j % 2 == 0) if j in pins else kvalue.default_value(prog["params"][j]))
+        ref = outcome(lambda: ref_f(*ref_args))
         if ref[0] == "ok":
             ref = ("ok", ref[1][0] if single_out else tuple(ref[1]))
         entry.update(st=st, ref=ref, vals=vals)
@@ -277,7 +289,7 @@ def run(pid, tier, seed, res, only=None):
             res1 = kvalue.res0_coq(ctl.res0s[0], ids, keys)
             res2d = dict(d.results)
             for i_, v in zip(in_ids, vals):
-                res2d[i_] = v
+                res2d[i_] = v  # (for a parameter made an input: the supplied value replaces the stored default)
             cfg2 = sched_cfg_of(d, set(res2d.keys()))
             rho = "[" + "; ".join("(%d, %d)" % (ids("cmp>!>" + x), ids(x)) for x in in_ids) + "]"
             term = "embed_check %s %s %s %s %s %s %s []" % (specs1, specs2, coqrun.sched_cfg_coq(cfg1, ids), coqrun.sched_cfg_coq(cfg2, ids), res1, kvalue.res0_coq(res2d, ids, keys), rho)
